@@ -141,7 +141,22 @@ def cmp_wirein(prop, case, impl, model):
             ci = [x for x in ir if x.startswith('8:')]
             cm = [x for x in mr if x.startswith('8:')]
             readahead = last is not None and last[0] == 'M' and last[2] == 'other' and model.get('zcorrupt') == '1' and len(ir) < len(mr) and all(_reply_eq(a, b) for a, b in zip(ir, mr))
-            if readahead:
+            teardown = model.get('hitend') == '1' and len(ir) == len(mr) - 1 and mr[-1].startswith('8:') and all(_reply_eq(a, b) for a, b in zip(ir, mr))
+            is1009 = lambda x: x.startswith('8:03f1')
+            limit_early = (last is not None and last[0] == 'M' and last[2] == 'limit' and len(ir) >= 1 and is1009(ir[-1])
+                           and not any(x.startswith('8:') for x in ir[:-1]) and len(ir) - 1 <= len(mr)
+                           and all(_reply_eq(a, b) for a, b in zip(ir[:-1], mr)))
+            if limit_early:
+                # the library hits the limit as soon as limit+1 bytes are inflated and answers with Close 1009; the model inflates
+                # after pulling the WHOLE message, so it has also processed what lies behind that point (answered further Pings, met
+                # a protocol violation and sent Close 1002 instead): the library's replies are a prefix of the model's Pongs + 1009
+                pass
+            elif teardown:
+                # the transport ended under the reader (inside a control frame, say): the context of that failed section stays armed
+                # and is cancelled, so the library's timeout goroutine closes the connection concurrently; a Close frame the reader
+                # wants to write afterwards (limit hit on what was already inflated) may or may not get out before that close
+                pass
+            elif readahead:
                 # the inflater met corrupt data: the library stops there; the model, which pulls the whole message first, also
                 # processed the frames behind the corrupt point (a Pong, or a Close frame for a bad header): replies are a prefix
                 pass
